@@ -75,7 +75,12 @@ Definition patch_rules (uri_ok : bytes -> bool) (eps : list (bytes * json) -> li
   (exists a, patch_action p = Some a /\ In a enabled)
   /\ Forall key_rules (patch_keys p) /\ NoDup (map entry_id (patch_keys p))
   /\ Forall (service_rules uri_ok eps) (patch_services p) /\ NoDup (map entry_id (patch_services p))
-  /\ (forall ops, patch_jsonpatch p = Some ops -> jsonpatch_paths_ok ops = true).
+  /\ (forall ops, patch_jsonpatch p = Some ops -> jsonpatch_paths_ok ops = true)
+  (* no element escapes: the raw arrays consist of exactly the validated object entries, and the
+     sections of a replace document are absent, null or arrays *)
+  /\ patch_key_elems p = map JObj (patch_keys p)
+  /\ patch_service_elems p = map JObj (patch_services p)
+  /\ patch_sections_typed p = true.
 
 (* ---------- entries ---------- *)
 
@@ -176,7 +181,7 @@ Proof.
     destruct v; try discriminate.
     apply vbool_accept in H.
     apply andb_true_iff in H. destruct H as [H Hs].
-    apply andb_true_iff in H. destruct H as [_ Hk].
+    apply andb_true_iff in H. destruct H as [H Hk].
     apply public_keys_rules in Hk. apply services_rules in Hs.
     destruct Hk as [Hk1 Hk2]. destruct Hs as [Hs1 Hs2].
     repeat split; auto. intros ops Hops. discriminate. }
@@ -203,6 +208,62 @@ Proof.
   repeat split; try constructor. intros ops Hops. discriminate.
 Qed.
 
+Lemma all_objects_map : forall l,
+  all_objects l = true -> l = map JObj (object_entries (Some (JArr l))).
+Proof.
+  unfold object_entries. induction l as [|e l IH]; intros H; [reflexivity|].
+  cbn [all_objects forallb] in H. apply andb_true_iff in H. destruct H as [He Hl].
+  destruct e; try discriminate. cbn [flat_map app map]. f_equal. apply IH. exact Hl.
+Qed.
+
+Lemma optional_section : forall j,
+  optional_object_array j = true ->
+  array_elems j = map JObj (object_entries j)
+  /\ match j with None | Some JNull | Some (JArr _) => true | _ => false end = true.
+Proof.
+  intros [[| | | |l|]|] H; cbn in H; try discriminate; try (split; reflexivity).
+  split; [apply all_objects_map; exact H|reflexivity].
+Qed.
+
+(* commit a4ab443: nothing in a publicKeys / services array escapes validation *)
+Lemma validate_patch_elems : forall p,
+  validate_patch_out uri_ok uri_parse p = VAccept ->
+  patch_key_elems p = map JObj (patch_keys p)
+  /\ patch_service_elems p = map JObj (patch_services p)
+  /\ patch_sections_typed p = true.
+Proof.
+  intros p H. unfold validate_patch_out in H.
+  unfold patch_key_elems, patch_service_elems, patch_sections_typed, patch_keys, patch_services.
+  destruct (patch_action p) as [a|]; [|discriminate].
+  destruct (patch_value p) as [v|]; [|discriminate].
+  destruct (bytes_eqb a (B "replace")) eqn:Erep.
+  { apply bytes_eqb_eq in Erep. subst a. cbn.
+    destruct v; try discriminate.
+    apply vbool_accept in H.
+    apply andb_true_iff in H. destruct H as [H _].
+    apply andb_true_iff in H. destruct H as [H _].
+    apply andb_true_iff in H. destruct H as [H Hos].
+    apply andb_true_iff in H. destruct H as [_ Hok].
+    apply optional_section in Hok. apply optional_section in Hos.
+    destruct Hok as [Hk1 Hk2]. destruct Hos as [Hs1 Hs2].
+    split; [exact Hk1|]. split; [exact Hs1|]. rewrite Hk2, Hs2. reflexivity. }
+  destruct (bytes_eqb a (B "ietf-json-patch")) eqn:Ejp.
+  { apply bytes_eqb_eq in Ejp. subst a. cbn. destruct v; repeat split. }
+  destruct (bytes_eqb a (B "add-public-keys")) eqn:Eak.
+  { apply vbool_accept in H. apply andb_true_iff in H. destruct H as [H _].
+    apply andb_true_iff in H. destruct H as [Hreq Hobj].
+    apply bytes_eqb_eq in Eak. subst a. cbn.
+    destruct v; try discriminate. cbn in Hobj. split; [apply all_objects_map; exact Hobj|]. split; reflexivity. }
+  destruct (bytes_eqb a (B "remove-public-keys")) eqn:Erk.
+  { apply bytes_eqb_eq in Erk. subst a. cbn. destruct v; repeat split. }
+  destruct (bytes_eqb a (B "add-services")) eqn:Eas.
+  { apply vbool_accept in H. apply andb_true_iff in H. destruct H as [H _].
+    apply andb_true_iff in H. destruct H as [Hreq Hobj].
+    apply bytes_eqb_eq in Eas. subst a. cbn.
+    destruct v; try discriminate. cbn in Hobj. split; [reflexivity|]. split; [apply all_objects_map; exact Hobj|reflexivity]. }
+  cbn. destruct v; repeat split.
+Qed.
+
 (* ---------- the delta ---------- *)
 
 Lemma validate_patches_rules : forall enabled ps,
@@ -217,7 +278,9 @@ Proof.
     constructor; auto.
     unfold patch_rules. split.
     + exists a. split; auto. apply mem_bytes_In. exact Een.
-    + apply validate_patch_rules. exact Ev.
+    + destruct (validate_patch_rules p Ev) as [A [B0 [C [D E]]]].
+      destruct (validate_patch_elems p Ev) as [F [G K]].
+      repeat split; auto.
 Qed.
 
 (* THEOREM validated_rules.
@@ -227,7 +290,9 @@ Qed.
    distinct within the patch; every service entry has a 1-50 byte URL-safe id, a type of 1-30 bytes,
    and ALL its endpoints (a string endpoint, or every string element of an endpoint array) are valid
    URIs; service ids are pairwise distinct; every operation of a JSON patch passed the pointer check
-   on "path" and "from".  (Before commit e1e5aec only the first string of an endpoint array was
+   on "path" and "from"; the raw publicKeys / services arrays consist of exactly these object entries
+   (nothing is skipped, commit a4ab443) and the sections of a replace document are absent, null or
+   arrays; see also [validated_rules_elems].  (Before commit e1e5aec only the first string of an endpoint array was
    checked; the old counterexample is [old_bad_endpoint_now_rejected] below.) *)
 Theorem validated_rules : forall enabled ps,
   validate_delta_patches uri_ok uri_parse enabled ps = true ->
@@ -238,6 +303,24 @@ Proof.
   split; [discriminate|].
   apply validate_patches_rules.
   destruct (validate_patches_out uri_ok uri_parse enabled (p :: ps)); try discriminate. reflexivity.
+Qed.
+
+(* the same rules stated over the RAW arrays: every element of a carried publicKeys / services array
+   (add-public-keys, add-services, replace) is an object satisfying the key / service rules *)
+Definition elem_rules (R : list (bytes * json) -> Prop) (e : json) : Prop := exists m, e = JObj m /\ R m.
+
+Corollary validated_rules_elems : forall enabled ps,
+  validate_delta_patches uri_ok uri_parse enabled ps = true ->
+  Forall (fun p => Forall (elem_rules key_rules) (patch_key_elems p)
+                   /\ Forall (elem_rules (service_rules uri_ok service_endpoints)) (patch_service_elems p)) ps.
+Proof.
+  intros enabled ps H. apply validated_rules in H. destruct H as [_ H].
+  eapply Forall_impl; [|exact H]. intros p Hp.
+  destruct Hp as [_ [Hk [_ [Hs [_ [_ [Ek [Es _]]]]]]]]. rewrite Ek, Es. split.
+  - apply Forall_forall. intros e He. apply in_map_iff in He. destruct He as [m [Em Hin]].
+    exists m. split; [auto|]. eapply Forall_forall in Hk; eauto.
+  - apply Forall_forall. intros e He. apply in_map_iff in He. destruct He as [m [Em Hin]].
+    exists m. split; [auto|]. eapply Forall_forall in Hs; eauto.
 Qed.
 
 End Oracles.
@@ -259,12 +342,29 @@ Example old_bad_endpoint_now_rejected :
   validate_delta_patches uri_ok_demo uri_parse_demo all_actions [bad_endpoint_patch] = false.
 Proof. reflexivity. Qed.
 
-(* still true: entries of a key / service array that are not objects are skipped, not rejected:
-   {"action":"add-public-keys","publicKeys":["junk"]} is accepted and carries no key at all *)
-Example non_object_entries_accepted :
+(* {"action":"add-public-keys","publicKeys":["junk"]} was accepted (the entry was skipped, so it escaped
+   every rule) before commit a4ab443; it is rejected now, as are ill-typed replace sections *)
+Definition replace_patch (doc : json) : json := JObj [(B "action", JStr (B "replace")); (B "document", doc)].
+
+Example non_object_entries_now_rejected :
   validate_patch uri_ok_demo uri_parse_demo
-    (JObj [(B "action", JStr (B "add-public-keys")); (B "publicKeys", JArr [JStr (B "junk")])]) = true.
-Proof. reflexivity. Qed.
+    (JObj [(B "action", JStr (B "add-public-keys")); (B "publicKeys", JArr [JStr (B "junk")])]) = false
+  /\ validate_patch uri_ok_demo uri_parse_demo
+    (JObj [(B "action", JStr (B "add-public-keys")); (B "publicKeys", JArr [ex_key; JNum 1])]) = false
+  /\ validate_patch uri_ok_demo uri_parse_demo
+    (JObj [(B "action", JStr (B "add-services")); (B "services", JArr [JNull])]) = false
+  /\ validate_patch uri_ok_demo uri_parse_demo (replace_patch (JObj [(B "publicKeys", JArr [JStr (B "junk")])])) = false
+  /\ validate_patch uri_ok_demo uri_parse_demo (replace_patch (JObj [(B "services", JArr [JNum 1])])) = false
+  /\ validate_patch uri_ok_demo uri_parse_demo (replace_patch (JObj [(B "publicKeys", JStr (B "oops"))])) = false.
+Proof. repeat split; reflexivity. Qed.
+
+(* {"action":"replace","document":{"publicKeys":null}}: a nil entry passes validateOptionalObjectArray,
+   and so do an absent section and an empty array (confirmed on the real code) *)
+Example replace_null_or_empty_sections_accepted :
+  validate_patch uri_ok_demo uri_parse_demo (replace_patch (JObj [(B "publicKeys", JNull)])) = true
+  /\ validate_patch uri_ok_demo uri_parse_demo (replace_patch (JObj [])) = true
+  /\ validate_patch uri_ok_demo uri_parse_demo (replace_patch (JObj [(B "publicKeys", JArr []); (B "services", JNull)])) = true.
+Proof. repeat split; reflexivity. Qed.
 
 (* {"action":"ietf-json-patch","patches":[{"op":"add","path":null,"value":1}]} made the validator panic
    before commit cb19e9e; it is an ordinary rejection now, and the model never yields VPanic *)
@@ -300,3 +400,10 @@ Example validated_rules_nonvacuous :
      JObj [(B "action", JStr (B "ietf-json-patch"));
            (B "patches", JArr [JObj [(B "op", JStr (B "move")); (B "from", JStr (B "/x")); (B "path", JStr (B "/y"))]])]] = true.
 Proof. reflexivity. Qed.
+
+Example validated_rules_elems_nonvacuous :
+  patch_key_elems (JObj [(B "action", JStr (B "add-public-keys")); (B "publicKeys", JArr [ex_key])]) = [ex_key]
+  /\ patch_key_elems (replace_patch (JObj [(B "publicKeys", JArr [ex_key])])) = [ex_key]
+  /\ validate_delta_patches uri_ok_demo uri_parse_demo all_actions
+       [replace_patch (JObj [(B "publicKeys", JArr [ex_key])])] = true.
+Proof. repeat split; reflexivity. Qed.
